@@ -38,4 +38,7 @@ def get(pid):
                                'not covered by the statement']
             return chk.finish()
         return check_c19
+    if pid == 'C20':
+        from . import cppgen_checks
+        return cppgen_checks.check_c20
     raise SystemExit(f'no check registered for {pid}')
